@@ -7,7 +7,8 @@ EXTENDS BBDenote
 \* an exact value as a parenthesised literal expression
 ValLit(v) == LET mag == IF v.re[1] >= 0 THEN v.re ELSE QNeg(v.re)
                  lit == IF v.k = "int" THEN [t |-> "int", n |-> mag[1]] ELSE [t |-> "flt", n |-> mag[1], d |-> mag[2]]
-             IN [t |-> "brk", a |-> IF v.re[1] >= 0 THEN lit ELSE [t |-> "neg", a |-> lit]]
+             IN IF v.k = "complex" THEN [t |-> "brk", a |-> [t |-> "val", v |-> v]]        \* one COMPLEX token (it carries its own signs)
+                ELSE [t |-> "brk", a |-> IF v.re[1] >= 0 THEN lit ELSE [t |-> "neg", a |-> lit]]
 RECURSIVE SubstP(_, _)
 SubstP(e, env) == CASE e.t = "par" -> (IF Has(env, e.p) THEN ValLit(Get(env, e.p)) ELSE e)
                     [] e.t = "idx" -> [e EXCEPT !.e = SubstP(e.e, env)]
